@@ -57,7 +57,9 @@ RULE = ("seven case families: (mask) connected hole-free masks - 4/8-"
         "contours; denominators 1 and 8) at offsets 0..10^4 px as int32, "
         "float16 (when representable), float32, float64, also translated "
         "and axis-swapped: moments, area, raw/cvx/prnc ratio and tilt "
-        "against exact integer arithmetic; (dataset) "
+        "against exact integer arithmetic; (lazy) 2-8 events behind the lazy "
+        "contour list (function and dataset column), some without a valid "
+        "contour, read in random order with repetitions; (dataset) "
         "ancillary features of in-memory datasets. A case is non-trivial "
         "when the implementation returned a value (not an error/nan) that "
         "was compared; distinct = different generated input")
@@ -1774,6 +1776,73 @@ def do_fmoments(ctx, case):
     run.record_case(case, nontrivial)
 
 
+def gen_lazy(rng, thorough):
+    """several events behind the lazy contour list (get_contour_lazily /
+    ds["contour"]), some without a valid contour (one pixel, empty), read in
+    random order with repetitions"""
+    n = rng.randint(2, 8)
+    h, w = rng.randint(5, 10), rng.randint(5, 12)
+    masks = []
+    for _ in range(n):
+        r = rng.random()
+        if r < 0.2:
+            rows = [[0] * w for _ in range(h)]
+            rows[rng.randrange(h)][rng.randrange(w)] = 1      # no contour
+        elif r < 0.27:
+            rows = [[0] * w for _ in range(h)]                # empty
+        else:
+            c = good_mask(rng, thorough)
+            rows = [rr[:w] + [0] * (w - len(rr)) for rr in c["rows"]][:h]
+            rows += [[0] * w for _ in range(h - len(rows))]
+        masks.append(rows)
+    order = [rng.randrange(n) for _ in range(rng.randint(n, 4 * n))]
+    return dict(kind="lazy", masks=masks, order=order,
+                via=rng.choice(["function", "dataset"]))
+
+
+def do_lazy(ctx, case):
+    """Every read of event i through the lazy list gives the contour of
+    mask i (or the error get_contour raises for mask i), whatever was read,
+    or failed, before."""
+    np = _np()
+    import dclab
+    from dclab.features import contour as fc
+    run = ctx.run
+    masks = np.array(case["masks"], dtype=bool)
+    if case["via"] == "dataset":
+        ds = dclab.new_dataset({"mask": masks, "deform": np.zeros(len(masks))})
+        lazy = ds["contour"]
+    else:
+        lazy = guard(ctx, case)(fc.get_contour_lazily)(masks)
+    ok = True
+    errors = 0
+    for step, i in enumerate(case["order"]):
+        try:
+            want = fc.get_contour(masks[i])
+        except BaseException as e:
+            want = type(e).__name__
+        try:
+            got = lazy[i]
+        except BaseException as e:
+            got = type(e).__name__
+            errors += 1
+        same = (got == want) if isinstance(got, str) or isinstance(want, str) \
+            else (got.shape == want.shape and bool((got == want).all()))
+        if not same:
+            ok = False
+            ctx.fail(case, "read %d: contour of event %d through the lazy "
+                     "list (%s) after reading %s is %s, get_contour of its "
+                     "mask gives %s" % (
+                         step, i, case["via"], case["order"][:step],
+                         got if isinstance(got, str) else got.tolist(),
+                         want if isinstance(want, str) else want.tolist()))
+            break
+    run.record_case(case, ok and errors > 0 and
+                    len(set(case["order"])) < len(case["order"]))
+    run.count("lazy:%s:%s" % (case["via"], "with-invalid" if errors else
+                              "all-valid"))
+
+
 SEQ_OPS = ["raw", "cvx", "prnc", "tilt", "moments", "volume"]
 
 
@@ -1916,7 +1985,7 @@ DISPATCH = dict(mask=do_mask, dedup=do_dedup, moments=do_moments,
                 rotation=do_rotation, volrev=do_volrev, volume=do_volume,
                 sphere=do_sphere, bright=do_bright, crosstalk=do_crosstalk,
                 dataset=do_dataset, sequence=do_sequence,
-                fmoments=do_fmoments)
+                fmoments=do_fmoments, lazy=do_lazy)
 
 
 def load_corpus():
@@ -2010,6 +2079,7 @@ def run(run):
     later += [gen_bright(rng) for _ in range(160 * f)]
     later += [gen_crosstalk(rng) for _ in range(100 * f)]
     later += [gen_dataset(rng, run.thorough) for _ in range(12 * f)]
+    later += [gen_lazy(rng, run.thorough) for _ in range(40 * f)]
     for c in later:
         dispatch(c)
     # ---- evaluate the model, compare ----
@@ -2111,6 +2181,17 @@ def shrink(run, failure):
                 d = fails(cand)
                 if d:
                     pts, best, desc, changed = cand["pts"], cand, d, True
+                    break
+    elif kind == "lazy":
+        order = list(case["order"])
+        changed = True
+        while changed and len(order) > 1:
+            changed = False
+            for i in range(len(order)):
+                cand = dict(best, order=order[:i] + order[i + 1:])
+                d = fails(cand)
+                if d:
+                    order, best, desc, changed = cand["order"], cand, d, True
                     break
     elif kind == "sequence":
         ops = list(case["ops"])
